@@ -258,6 +258,38 @@ def gen_node(rng, nm, lib, depth, libnodes):
             'transforms': [gen_transform(rng) for _ in range(rng.choice([0, 1, 2, 3]))], 'children': children}
 
 
+DATES = ['2021-03-04T05:06:07', '2021-03-04T05:06:07.250000', '2021-03-04T05:06:07+05:30', '2021-03-04T05:06:07-03:00',
+         '2021-03-04T05:06:07.125000+00:00', '0999-12-31T23:59:59', '0050-01-01T00:00:00+14:00', '9999-12-31T23:59:59.999999-11:45',
+         '2024-02-29T12:00:00+00:00']
+KINDS = ['geometries', 'lights', 'cameras', 'images', 'effects', 'materials', 'nodes', 'scenes']
+
+
+def gen_one(rng, nm, kind):
+    nolib = {'cameras': [], 'lights': [], 'materials': [], 'geometries': []}
+    if kind == 'geometries':
+        return gen_geometry(rng, nm, [])
+    if kind == 'lights':
+        return gen_light(rng, nm)
+    if kind == 'cameras':
+        return gen_camera(rng, nm)
+    if kind == 'images':
+        return {'id': nm.fresh(), 'path': 'x/y.png'}
+    if kind == 'effects':
+        return gen_effect(rng, nm, [])
+    if kind == 'materials':
+        return {'id': nm.fresh(), 'name': nm.fresh(), 'effect_recipe': gen_effect(rng, nm, [])}
+    if kind == 'nodes':
+        return gen_node(rng, nm, nolib, 2, [])
+    return {'id': nm.fresh(), 'nodes': [gen_node(rng, nm, nolib, 2, [])]}
+
+
+def gen_library_swap(rng, nm):
+    """between two writes, one library is emptied and the first object of another kind is created
+    (all ordered pairs of kinds come up over a run)"""
+    a, b = rng.sample(KINDS, 2)
+    return [['empty_library', b], ['write'], ['empty_library', a], ['add_one', b, gen_one(rng, nm, b)], ['write']]
+
+
 def gen_asset(rng, nm):
     a = {}
     if rng.random() < 0.5:
@@ -283,6 +315,11 @@ def gen_asset(rng, nm):
             c['source_data'] = rng.choice(['file:///tmp/a.max', 'http://example.org/x%20y', 'a/b.dae'])
         cs.append(c)
     a['contributors'] = cs
+    if rng.random() < 0.5:
+        # user-supplied dates: naive and aware, fractional seconds, offsets +-hh:mm, a year below 1000
+        a['created'] = rng.choice(DATES)
+    if rng.random() < 0.5:
+        a['modified'] = rng.choice(DATES)
     return a
 
 
@@ -466,6 +503,8 @@ def gen_scratch(rng, n):
             ops.append(['write'])
         for _ in range(rng.randint(1, 5)):
             ops += expand(rng, gen_edit_op(rng, nm, lib, libnodes))
+        if rng.random() < 0.35:
+            ops += gen_library_swap(rng, nm)
         if rng.random() < 0.3:
             ops.append(['reload'])
             for _ in range(rng.randint(0, 3)):
@@ -486,6 +525,8 @@ def gen_edit(rng, n, base_name):
             ops.append(['reload'])
         elif rng.random() < 0.1:
             ops.append(['write'])
+    if rng.random() < 0.3:
+        ops += gen_library_swap(rng, nm)
     ops.append(['write'])
     return {'kind': 'edit', 'base_name': base_name, 'ops': ops, 'pure': False}
 
